@@ -105,6 +105,18 @@ func findLevelReplay(in io.Reader, raw bool, args []string) (*Summary, error) {
 			if len(tk.probes) > 2100 {
 				sum.viol("FindLevel-probes", c, "%d probes", len(tk.probes))
 			}
+			// "for any ticker": also one that knows only the levels inside the limits (a table).  The search is about the
+			// levels MinLevel..MaxLevel (-1000..1000 without limits) and has no business asking about others
+			lo, hi := fc.MinL, fc.MaxL
+			if lo == 0 && hi == 0 {
+				lo, hi = -1000, 1000
+			}
+			for _, pl := range tk.probes {
+				if pl < lo || pl > hi {
+					sum.viol("FindLevel-probes", c, "count shape %d, limits [%d,%d], guess %d: the ticker was asked about level %d, outside the limits (probes %v)", shape, lo, hi, fc.Guess, pl, tk.probes)
+					break
+				}
+			}
 		}
 	})
 	return sum, err
